@@ -6,7 +6,7 @@ import os
 import random
 import time
 
-from . import common, gen, queryfam, c10, worldfam, c18, c09, c15, c16, c20
+from . import common, gen, queryfam, c10, worldfam, c18, c09, c15, c16, c20, c14
 
 TRUSTED_BASE = [
     "Lean 4.33.0 kernel (axioms limited to propext, Classical.choice, Quot.sound; audited per theorem on every run)",
@@ -399,6 +399,17 @@ REGISTRY = {
         "correspondence": "Lmd.reloadPeers / freshEntry / initAllTables vs Daemon.initializePeers / initializeListeners / NewPeer / Nodes.Initialize",
         "assumptions": ["the reload sequence is driven in-process (mainLoop's body between reading the configuration and waiting for signals); signal delivery and config file parsing are not exercised",
                         "cluster mode (Nodes) and HTTP listeners are not exercised", "virtual clock frozen between steps: the update loops run but nothing is due"],
+    },
+    "C14": {
+        "lean_modules": ["C14"],
+        "run": c14.run,
+        "rule": "(1) 600 (thorough 12000) generated requests over all tables (filter trees, Stats, Sort, AuthUser, WaitCondition, the *_with_info / *_with_state columns): Request.affectedTables vs Lmd.affectedTables, and Lmd.tablesRead "
+                "must be a subset of what the implementation locks; (2) race-detector build: 2-3 scripted backends stamping every object with a version in 6 columns of different kinds, comments added/removed, timeperiods flipping, "
+                "failures and restarts, virtual time running 50x, update loops ticking every 10 ms, 4-10 clients cycling through 16 query shapes (data, sorted, Stats, by-group, cross-table filters, virtual columns, AuthUser, WaitTrigger, sites) "
+                "over two real listeners for 3 s (thorough 3 x 15 s); every row is checked for one version, per-client monotonicity, JSON validity; race reports, crashes, hangs, refused clients are violations",
+        "correspondence": "Lmd.affectedTables / tablesRead vs Request.affectedTables; schedules: race detector + torn-row oracle on the real daemon",
+        "assumptions": ["partial: interleavings are sampled by the soak, not enumerated; the Lean theorems cover the locking discipline (every table read is locked, one global lock order, protocol model), not the Go memory model",
+                        "static columns read without a lock by the authorisation check are not writes' targets and are outside tablesRead"],
     },
     "C09": {
         "lean_modules": ["C09"],
